@@ -129,6 +129,17 @@ Theorem C18_insert_sorted : forall k nv t, ascending (ty_toks t) = true -> has_t
 Proof. exact ins_tok_ascending. Qed.
 Print Assumptions C18_insert_sorted.
 
+(* sequences of upserts on one buffer: every call returns; the calls that report success take effect in
+   order (upsert_spec on the abstraction), the others leave the buffer as it was; after the last call the
+   buffer again has an abstraction (so every theorem above applies to the next call) and its length is
+   unchanged *)
+Theorem C18_upsert_seq_refines : forall qs b G,
+  abs b = Some G -> Forall request_ok qs -> zlen b + 40 < 2 ^ 32 ->
+  exists b' oks, upsert_seq qs b = Ok (b', oks) /\ length oks = length qs /\
+    abs b' = Some (spec_seq qs oks G) /\ zlen b' = zlen b.
+Proof. exact upsert_seq_refines. Qed.
+Print Assumptions C18_upsert_seq_refines.
+
 (* ---- non-vacuity: concrete blobs meet the hypotheses and exercise every path ---- *)
 
 Definition ex_hdr1 : bytes := le_enc 4 apcb_sig_v2 ++ [128; 0; 32; 0].
@@ -191,3 +202,16 @@ Proof. eexists. split; [vm_compute; reflexivity|]. split; vm_compute; reflexivit
 (* no room: 7 spare bytes do not take a pair; the buffer is returned as it was *)
 Example ex_noroom : upsert 25 255 65535 4 5 (enc_blob (ex_blob 7)) = Ok (enc_blob (ex_blob 7), E_NOROOM).
 Proof. vm_compute. reflexivity. Qed.
+
+(* a sequence on one buffer with 31 spare bytes: insert (8 bytes), update of the token just inserted, new type
+   (24 bytes would need 32 with the pair already inserted: refused, buffer kept), update again *)
+Definition ex_seq : list request :=
+  [ (25, 255, 65535, 4, 5); (25, 4, 16, 4, 6); (77, 2, 8, 2, 513); (20, 255, 65535, 4, 9) ].
+Example ex_seq_ok : Forall request_ok ex_seq.
+Proof. repeat constructor; cbn; unfold args_ok; repeat split; try (vm_compute; congruence); lia. Qed.
+Example ex_sequence :
+  exists b', upsert_seq ex_seq (enc_blob (ex_blob 31)) = Ok (b', [true; true; false; true]) /\
+    abs b' = Some (spec_seq ex_seq [true; true; false; true] ex_groups) /\
+    parse_tokens b' = Ok [ mkToken 10 255 65535 4 1000; mkToken 20 255 65535 4 9; mkToken 30 255 65535 4 3000;
+                           mkToken 20 4 1 0 1; mkToken 20 4 240 4 9; mkToken 25 4 240 4 6; mkToken 40 4 240 4 8 ].
+Proof. eexists. split; [vm_compute; reflexivity|]. split; vm_compute; reflexivity. Qed.
